@@ -109,23 +109,30 @@ func runC17(c *Ctx) {
 		[]string{"ContentEncryptionAlgorithm is a package variable: phases run one after another"})
 	r := c.Rng("c17")
 	// PKI
-	mkSM2 := func(cn string, serial int64) (*sm2.PrivateKey, *gx509.Certificate) {
-		k := newSM2Key(r)
-		cc, _, err := issueSM2(certSpec{cn: cn, serial: serial, dns: []string{cn}}, &k.PublicKey, nil, k, r)
-		if err != nil {
-			return nil, nil
-		}
-		return k, cc
-	}
 	type rcpt struct {
 		k *sm2.PrivateKey
 		c *gx509.Certificate
 	}
+	// recipients 0..3 are issued by ONE common CA (same issuer name, distinct serials) so that recipient lookup must
+	// really match issuer AND serial; recipient 4 comes from another CA but reuses recipient 1's serial number.
 	var rc []rcpt
-	for i := 0; i < 4; i++ {
-		k, cc := mkSM2(fmt.Sprintf("rcpt%d", i), int64(40+i))
-		if cc == nil {
-			rep.Violation("C17/harness/cannot-create-recipient", "", nil)
+	caKey := newSM2Key(r)
+	ca, _, err := issueSM2(certSpec{cn: "C17 recipients CA", serial: 7, isCA: true}, &caKey.PublicKey, nil, caKey, r)
+	ca2Key := newSM2Key(r)
+	ca2, _, err2 := issueSM2(certSpec{cn: "C17 other CA", serial: 8, isCA: true}, &ca2Key.PublicKey, nil, ca2Key, r)
+	if err != nil || err2 != nil {
+		rep.Violation("C17/harness/cannot-create-recipient-CA", fmt.Sprint(err, err2), nil)
+		return
+	}
+	for i := 0; i < 5; i++ {
+		k := newSM2Key(r)
+		issuer, issuerKey, serial := ca, caKey, int64(40+i)
+		if i == 4 {
+			issuer, issuerKey, serial = ca2, ca2Key, 41
+		}
+		cc, _, e := issueSM2(certSpec{cn: fmt.Sprintf("rcpt%d", i), serial: serial, dns: []string{fmt.Sprintf("rcpt%d", i)}}, &k.PublicKey, issuer, issuerKey, r)
+		if e != nil {
+			rep.Violation("C17/harness/cannot-create-recipient", e.Error(), nil)
 			return
 		}
 		rc = append(rc, rcpt{k, cc})
@@ -178,8 +185,16 @@ func runC17(c *Ctx) {
 			e := ecs[i]
 			rr := c.Rng(fmt.Sprintf("env%d/%d", alg, i))
 			content := rr.Bytes(e.n)
+			// recipient set: a rotation of {0,1,2} and, for some cases, the same-serial/other-issuer recipient 4 in front of 1
+			order := []int{0, 1, 2}
+			if i%3 == 1 {
+				order = []int{2, 0, 1}
+			} else if i%3 == 2 {
+				order = []int{4, 1, 0}
+			}
+			order = order[:e.nr]
 			var certs []*gx509.Certificate
-			for k := 0; k < e.nr; k++ {
+			for _, k := range order {
 				certs = append(certs, rc[k].c)
 			}
 			cls := fmt.Sprintf("enveloped/sm2/%s/mode=%d/recipients=%d/len=%s", algName, e.mode, e.nr, lcls(e.n))
@@ -202,10 +217,10 @@ func runC17(c *Ctx) {
 				rep.Eval(cls)
 				return
 			}
-			for k := 0; k < e.nr; k++ {
+			for pos, k := range order {
 				var got []byte
 				if pi := mon.Guard(func() { got, err = p7.DecryptSM2(rc[k].c, rc[k].k, e.mode) }); pi != nil || err != nil || !bytes.Equal(got, content) {
-					rep.Violation("C17/DecryptSM2/recipient-cannot-recover/"+algName, fmt.Sprintf("recipient %d: %v %v", k, pi, err), w)
+					rep.Violation("C17/DecryptSM2/recipient-cannot-recover/"+algName, fmt.Sprintf("recipient #%d (position %d of %v): %v %v", k, pos, order, pi, err), w)
 				}
 			}
 			neg := func(name string, cert *gx509.Certificate, key interface{}, mode int) {
@@ -222,11 +237,11 @@ func runC17(c *Ctx) {
 				rep.Eval("enveloped/sm2/neg/" + name)
 			}
 			neg("non-recipient", rc[3].c, rc[3].k, e.mode)
-			neg("recipient-cert-with-other-key", rc[0].c, rc[3].k, e.mode)
+			neg("recipient-cert-with-other-key", rc[order[0]].c, rc[3].k, e.mode)
 			if e.n != 0 || true {
-				neg("wrong-ordering", rc[0].c, rc[0].k, 1-e.mode)
+				neg("wrong-ordering", rc[order[0]].c, rc[order[0]].k, 1-e.mode)
 			}
-			neg("rsa-key-for-sm2-envelope", rc[0].c, rk1, e.mode)
+			neg("rsa-key-for-sm2-envelope", rc[order[0]].c, rk1, e.mode)
 			// byte substitutions
 			if c.Thorough || i%6 == 0 {
 				step := 1
@@ -244,7 +259,7 @@ func runC17(c *Ctx) {
 							e2 = e3
 							return
 						}
-						got, e2 = q.DecryptSM2(rc[0].c, rc[0].k, e.mode)
+						got, e2 = q.DecryptSM2(rc[order[0]].c, rc[order[0]].k, e.mode)
 					}); pi != nil {
 						rep.Violation("C17/enveloped/panic-on-mutated-container/"+pi.Func, pi.Value, map[string]interface{}{"position": p, "der": mon.Hex(m)})
 					} else if e2 == nil && !bytes.Equal(got, content) && alg == gx509.EncryptionAlgorithmAES128GCM {
